@@ -163,7 +163,7 @@ of1!(of1_two_flushes_time_sensitive, SendMode::TimeSensitive);
 
 // ---------------------------------------------------------------------------------------------------------------
 // OF8: a retransmission that is due while the flush has no credit must stay queued and go out later (C09/C02).
-//@h props=C02,C09,C12,C13 tier=quick timeout=900 role=flush-resend-no-credit cbmc=--max-field-sensitivity-array-size+512
+//@h props=C09,C02,C12,C13 tier=quick timeout=900 role=flush-resend-no-credit also_quick=C02 cbmc=--max-field-sensitivity-array-size+512
 //@fn HalfConnection::{send, emit_frames, emit_data_frames, is_send_pending}, DataFrameEmitter::{push, finalize}, ResendQueue
 //@bound small connection; ONE 1-byte Reliable packet; flush at t0 (ample credit), flush at any t1 >= t0 + 4 rtt with NEGATIVE credit (-1), flush at any t2 >= t1 with ample credit
 //@assume as of1_two_flushes_reliable
@@ -244,7 +244,7 @@ macro_rules! of2 { ($name:ident, $mode:expr, $nonce:expr, $good:expr) => {
     fn $name() { ack_then_flush($mode, $nonce, $good); }
 } }
 
-//@h props=C12,C15,C02,C09,C20 tier=quick timeout=1200 role=flush-ack-stops-resend cbmc=--max-field-sensitivity-array-size+512 unwindset=FrameQueue17acknowledge_group.0:34
+//@h props=C02,C12,C15,C09,C20 tier=quick timeout=1200 role=flush-ack-stops-resend also_quick=C12 cbmc=--max-field-sensitivity-array-size+512 unwindset=FrameQueue17acknowledge_group.0:34
 //@fn HalfConnection::{send, emit_frames, emit_data_frames, handle_ack_frame, is_send_pending, send_buffer_size}, FrameQueue::{acknowledge_group, advance_transfer_window}, PacketSender::acknowledge, PendingPacket::{acknowledge_fragment, fragment_acknowledged}
 //@bound small connection; ONE 1-byte Reliable packet; flush at any t0; ack frame with one group (base = the frame's id, bitfield 1, CORRECT nonce; frame nonce pinned to true); flush at any t1 >= t0 + 4 rtt; then a window acknowledgement
 //@assume as of1_two_flushes_reliable; the frame nonce is pinned per instance (true here, false in the wrong-nonce twin)
@@ -459,7 +459,7 @@ fn of7_packet_cut_by_credit_continues_in_next_flush() {
 // past A before that frame is acknowledged.  B's fragment must still be marked acknowledged (C12, C15).
 //@h props=C12,C15,C02,C09 tier=quick timeout=1800 role=flush-shared-frame-ack cbmc=--max-field-sensitivity-array-size+512 unwindset=FrameQueue17acknowledge_group.0:34
 //@fn HalfConnection::{send, emit_frames, emit_data_frames, handle_ack_frame, is_send_pending}, FrameQueue::{push, acknowledge_group}, PacketSender::acknowledge, DataFrameEmitter::{push, finalize}
-//@bound small connection; packet A (1 byte, Persistent) flushed at any t0; packet B (1 byte, Reliable) submitted; flush at any t1 >= t0 + 4 rtt (one frame: A again, then B); ack frame moving the packet window past A (no groups); ack frame acknowledging the shared frame (correct nonce; frame nonces pinned to true); flush at any t2 >= t1 + 4 rtt
+//@bound small connection; packet A (1 byte, Persistent) flushed at t0 = 1000 ms (rtt 50 ms); packet B (1 byte, Reliable) submitted; flush at 1300 ms (one frame: A again, then B); ack frame moving the packet window past A (no groups); ack frame acknowledging the shared frame (correct nonce; frame nonces pinned to true); flush at 2000 ms; payload bytes and CRC value any
 //@assume as of2_valid_ack_stops_resend_reliable
 #[kani::proof]
 #[kani::unwind(5)]
@@ -467,15 +467,14 @@ fn of7_packet_cut_by_credit_continues_in_next_flush() {
 #[kani::stub(alloc::rc::is_dangling, not_dangling)]
 fn of9_ack_of_shared_frame_after_first_packet_was_passed() {
     unsafe { crate::verif_env::RANDOM_BOOL_FIXED = Some(true); }
-    let e = any_env();
+    unsafe { crate::frame::serial::verif_codec::CRC_STUB_VALUE = kani::any(); }
+    // times are concrete here: whether the retransmission is due decides a heap-modifying branch in the middle of the
+    // script (DESIGN.md 10.8); the timing itself is the subject of of1/of8
+    let e = Env { rtt: 50, rto: 200 };
     let mut hc = small(TXP, 0, TXF, 0, None);
     let (ba, bb): (u8, u8) = (kani::any(), kani::any());
     hc.send(Box::new([ba]), 0, SendMode::Persistent);
-    let t0 = any_time_from(0);
-    let t1 = any_time_from(t0);
-    kani::assume(t1 - t0 >= 4 * e.rtt);
-    let t2 = any_time_from(t1);
-    kani::assume(t2 - t1 >= 4 * e.rtt);
+    let (t0, t1, t2): (u64, u64, u64) = (1000, 1300, 2000);
     hc.sync_timeout_base_ms = t0;
     hc.flush_alloc = AMPLE;
     let mut w = Wire::new();
